@@ -24,6 +24,7 @@ func (c01) Rule() string {
 	return "typed-grammar programs (harness/gt: ints with boundary values, floats, bools, strings, nil, arrays and maps on both sides of the 8/4 thresholds, named/anonymous/=> functions, recursion with fuel through the name and self, " +
 		"variadics, closures, if/else, the five loop forms with break/continue/return, = and :=, ++/--, indexing, slicing, every prefix/infix operator, && ||, error()/catch(); a few percent of operands deliberately ill-typed) rendered with a frozen precedence table " +
 		"and random layout; each is run by the independent reference evaluator and by the real interpreter on a fresh state (cache and registers on) and printed text, final value (by type and structure) and error/non-error are compared. " +
+		"An order-of-evaluation probe wraps every operand of one construct (slice, index, operator chains, call, literals, index assignment, builtin, if) in a call that prints its tag. " +
 		"non-trivial = the reference finished within its step budget and evaluated >= 8 nodes; distinct = distinct rendered programs (hash)."
 }
 func (c01) NumBatches(tier string) int {
